@@ -17,7 +17,7 @@ ASSUMPTIONS = ['ridges are 3 map rows thick with the maximum in the middle row (
                'lines of the two runs of the rotation clause are matched by nearest end points (the engine orders lines with random jitter)']
 N = {'quick': 340, 'thorough': 17000}
 CLASSES = ['maps', 'maps', 'maps_sloped', 'maps_endpoints', 'maps_many', 'detect_rot', 'detect_rot', 'maps_short', 'detect_columns', 'columns_separator', 'detect_adaptive', 'maps_parallel_sloped', 'maps_tiny_heights', 'maps_border', 'maps_one_row', 'maps_thick', 'maps_mixed_heights']
-REQUIRED = ['decodes_with_another_connection_range', 'ridges_with_negative_height_responses', 'one_row_ridges', 'tiny_height_outlines', 'parallel_sloped_ridges', 'border_ridges', 'repeated_decodes_of_one_array', 'adaptive_detections', 'adaptive_proposals', 'rotated_pages_with_sides_not_multiple_of_ds', 'separator_pages', 'column_pages', 'same_row_pairs', 'parse_calls', 'ridges_checked', 'sloped_ridges', 'endpoint_ridges', 'short_ridges', 'detect_pairs', 'rotated_lines_compared', 'rot1', 'rot2', 'rot3', 'regions_compared']
+REQUIRED = ['one_row_ridges_on_the_first_or_last_map_row', 'decodes_with_another_connection_range', 'ridges_with_negative_height_responses', 'one_row_ridges', 'tiny_height_outlines', 'parallel_sloped_ridges', 'border_ridges', 'repeated_decodes_of_one_array', 'adaptive_detections', 'adaptive_proposals', 'rotated_pages_with_sides_not_multiple_of_ds', 'separator_pages', 'column_pages', 'same_row_pairs', 'parse_calls', 'ridges_checked', 'sloped_ridges', 'endpoint_ridges', 'short_ridges', 'detect_pairs', 'rotated_lines_compared', 'rot1', 'rot2', 'rot3', 'regions_compared']
 SHARDS = {'quick': 8, 'thorough': 16}
 # 'within one pixel': the engine's un-rotation uses W - y where the exact inverse is W - 1 - y (exactly 1 px apart); outlines are float32
 # arrays, so the observed difference can exceed 1 by float32 round-off (1.0000038 seen at x = 290 in the thorough tier)
@@ -157,6 +157,11 @@ def gen(rng, i, ctx):
         ridges = [{'x0': xa, 'x1': xb, 'y0': 1.0, 'slope': 0.0, 'asc': 0.5, 'desc': 3.0, 'p': pw if top_weak else ps, 'endpoints': False},
                   {'x0': xa + 3, 'x1': xb - 2, 'y0': float(H // 2), 'slope': 0.0, 'asc': 5.0, 'desc': 3.0, 'p': 0.8, 'endpoints': False},
                   {'x0': xa + 1, 'x1': xb + 1, 'y0': float(H - 2), 'slope': 0.0, 'asc': 4.0, 'desc': 0.5, 'p': ps if top_weak else pw, 'endpoints': False}]
+        if rng.random() < 0.5:
+            # one-row ridges ON the first and the last map row (lines touching the page edge), 1.75 to 3 times the detection threshold: the engine's own
+            # smoothing duplicates the edge row, so two thirds of the response stay on that row
+            for r, yy in ((ridges[0], 0.0), (ridges[2], float(H - 1))):
+                r.update({'y0': yy, 'rows': 1, 'p': float(rng.uniform(0.35, 0.6)), 'on_edge_row': True})
         return {'cls': cls, 'size': [H, W], 'ridges': ridges, 'ds': int(rng.choice([1, 2, 4]))}
     ridges = []
     y = int(rng.integers(12, 20))
@@ -254,6 +259,8 @@ def check(case, mon, ctx):
             mon.count('one_row_ridges')
         if case['cls'] == 'maps_border' and (r['y0'] < 4 or r['y0'] > case['size'][0] - 5):
             mon.count('border_ridges')
+        if r.get('on_edge_row'):
+            mon.count('one_row_ridges_on_the_first_or_last_map_row')
         if r['endpoints']:
             mon.count('endpoint_ridges')
         if r['x1'] - r['x0'] + 1 <= 9:
@@ -518,4 +525,5 @@ def check_separator(case, mon, ctx):
         regions = helpers.assign_lines_to_regions(b_list, h_list, t_list, regions)
     lines = [(r.id, l.id, np.round(np.asarray(l.baseline)[[0, -1]]).tolist()) for r in regions for l in r.lines]
     if len(lines) != n:
-        mon.violation('one-line-per-ridge', dict(w, where='after assigning the detected lines to the detected regions (as the layout extractor does)', text_lines=lines, regions=len(p_list)))
+        mon.violation('one-line-per-ridge', dict(w, where='after assigning the detected lines to the detected regions (as the layout extractor does)', text_lines=lines, regions=len(p_list)))RULE += ' Round 9: One-row ridges on the first and the last map row, 1.75-3 times the detection threshold.'
+
